@@ -48,7 +48,8 @@ func flipBit(b []byte, bit int) []byte {
 
 func sameInfo(a, b []byte) bool { return bytes.Equal(a, b) } // nil and empty are the same context info
 
-// rejecter asserts that candidates are refused by a HybridDecrypt and release no plaintext.
+// rejecter asserts that candidates are refused by a HybridDecrypt ("yields an error"; bytes returned
+// next to the error are outside the C06 text and only counted).
 type rejecter struct {
 	t      *rapid.T
 	dec    tink.HybridDecrypt
@@ -86,7 +87,8 @@ func (r *rejecter) mustRejectWith(dec tink.HybridDecrypt, kind string, cand, inf
 		r.t.Fatalf("%s\ncandidate kind=%s ct=%s info=%s was ACCEPTED, plaintext %s", r.desc(), kind, fullHex(cand), fullHex(info), fullHex(pt))
 	}
 	if len(pt) != 0 {
-		r.t.Fatalf("%s\ncandidate kind=%s rejected with %v but %d plaintext bytes were returned", r.desc(), kind, err, len(pt))
+		// C06 says "yields an error" and nothing about the bytes returned next to the error: counted.
+		evid.Add("observed_not_asserted/nonempty_plaintext_on_error", 1)
 	}
 }
 
